@@ -30,8 +30,9 @@ as the known finding `C04-nested-root-mount`, then repaired when a four-line fix
 ASBUILT["C05"] = """**As built.** `spec/CtxLifecycle.tla` (+ `MC_CtxLifecycle.cfg`, `_mutant.cfg`: forgetting to reset one field must violate `NoForeignData`) and
 `harness/c05_test.go`: every history of <= 2 (thorough 3) preceding requests from 15 kinds x 5 probes is served **from wire bytes on one recycled
 `fasthttp.RequestCtx`** (flash-cookie parsing reads `RawHeaders`, which only a wire-parsed request has), GC off, pointer identity of the pooled
-context recorded; every history runs on a **fresh application** (application-level stores such as the SendFile handler store start empty, so
-what a probe sees can only come from its own history). Kinds and probes added after the second round of seeded changes: an optional
+context recorded; a history that uses the SendFile handler store runs on a **fresh application** (the store starts empty, so what the probe
+sees can only come from its own history; capped at 4 000 per process because every SendFile handler owns a goroutine and an open file), the
+others share an application that is renewed every 1 000 histories. Kinds and probes added after the second round of seeded changes: an optional
 parameter and a catch-all left empty by the probe, `SendFile` with and without `MaxAge`. The same histories are then run by 8 goroutines at
 once against one application (`TestC05Conc`; contexts migrate between goroutines, counted). The white-box export hook of section 5 was not needed. Fixed: `6cd3566` (stale flash
 slots). The seeded change C11B (a `Bind` object surviving in the pooled context) is caught here as well."""
